@@ -206,6 +206,118 @@ where
 	}
 }
 
+/// C13: snapshot after every one of the first steps (every ring phase), JSON round trip, then the
+/// original and the restored instance must stay bit-identical
+fn snapshot_check<M>(out: &mut Out, name: &str, params: M::Params, xs: &[M::Input])
+where
+	M: Method + Clone + serde::Serialize + serde::de::DeserializeOwned,
+	M::Params: Clone,
+	M::Input: Sized,
+	M::Output: OutTok,
+{
+	let mut m = match guard(|| M::new(params.clone(), &xs[0])) {
+		Some(Ok(m)) => m,
+		_ => return,
+	};
+	let mut bad: Option<String> = None;
+	let points = xs.len().min(2 * 40 + 3);
+	for k in 0..points {
+		let nonfinite = crate::flat::flatten(&m).iter().any(|t| t.starts_with('f') && !parse_fbits(&t[1..]).is_finite());
+		if !nonfinite {
+			let js = serde_json::to_string(&m).unwrap();
+			match guard(|| serde_json::from_str::<M>(&js)) {
+				Some(Ok(mut restored)) => {
+					let mut orig = m.clone();
+					for x in &xs[k..] {
+						let a = orig.next(x).toks();
+						let b = restored.next(x).toks();
+						if a != b {
+							bad = Some(format!("snapshot after {} steps diverges: {} vs {}", k, a, b));
+							break;
+						}
+					}
+				}
+				Some(Err(e)) => bad = Some(format!("snapshot after {} steps rejected: {} json={}", k, e, &js[..js.len().min(120)])),
+				None => bad = Some(format!("deserialization panicked after {} steps", k)),
+			}
+		}
+		if bad.is_some() {
+			break;
+		}
+		m.next(&xs[k]);
+	}
+	flag(out, name, "snapshot", bad.is_none(), bad.unwrap_or_default());
+}
+
+/// C08 on the real code: constant input gives constant output (exactly for non-float outputs, within a
+/// tolerance that does not grow for floats); extra leading copies of the first input change nothing
+fn constant_check<M>(out: &mut Out, rng: &mut Rng, name: &str, params: M::Params, xs: &[M::Input], exact: bool, scale: f64)
+where
+	M: Method,
+	M::Params: Clone,
+	M::Input: Sized + Clone,
+	M::Output: OutTok,
+{
+	let close = |a: &str, b: &str| -> bool {
+		if a == b {
+			return true;
+		}
+		if exact {
+			return false;
+		}
+		let (ta, tb): (Vec<&str>, Vec<&str>) = (a.split(' ').collect(), b.split(' ').collect());
+		ta.len() == tb.len()
+			&& ta.iter().zip(tb.iter()).all(|(x, y)| {
+				if x == y {
+					return true;
+				}
+				if !(x.starts_with('f') && y.starts_with('f')) {
+					return false;
+				}
+				let (p, q) = (parse_fbits(&x[1..]), parse_fbits(&y[1..]));
+				p.is_finite() && q.is_finite() && (p - q).abs() <= 1e-9 * (scale + p.abs().max(q.abs()))
+			})
+	};
+	let r = guard(|| {
+		let mut m = M::new(params.clone(), &xs[0]).ok()?;
+		let first = m.next(&xs[0]).toks();
+		for t in 0..2000 {
+			let o = m.next(&xs[0]).toks();
+			if !close(&o, &first) {
+				return Some(Some(format!("constant input: step {} gives {} instead of {}", t + 1, o, first)));
+			}
+		}
+		Some(None)
+	});
+	match r {
+		Some(Some(None)) => flag(out, name, "constant_input", true, String::new()),
+		Some(Some(Some(d))) => flag(out, name, "constant_input", false, d),
+		Some(None) => {}
+		None => flag(out, name, "constant_input", false, "panicked".into()),
+	}
+	let extra = 1 + rng.below(300) as usize;
+	let r = guard(|| {
+		let mut a = M::new(params.clone(), &xs[0]).ok()?;
+		let mut b = M::new(params.clone(), &xs[0]).ok()?;
+		for _ in 0..extra {
+			b.next(&xs[0]);
+		}
+		for (t, x) in xs.iter().enumerate() {
+			let (p, q) = (a.next(x).toks(), b.next(x).toks());
+			if !close(&p, &q) {
+				return Some(Some(format!("{} extra leading copies change step {}: {} vs {}", extra, t, p, q)));
+			}
+		}
+		Some(None)
+	});
+	match r {
+		Some(Some(None)) => flag(out, name, "prefix_invariance", true, String::new()),
+		Some(Some(Some(d))) => flag(out, name, "prefix_invariance", false, d),
+		Some(None) => {}
+		None => flag(out, name, "prefix_invariance", false, "panicked".into()),
+	}
+}
+
 /// `apply`/`new_apply` exist only for Input == Output
 fn apply_check<M>(out: &mut Out, name: &str, params: M::Params, xs: &[V])
 where
@@ -265,15 +377,45 @@ where
 }
 
 macro_rules! scalar_ma {
-	($out:expr, $rng:expr, $t:ty, $name:expr, $len:expr, $xs:expr) => {{
-		api_check::<$t>($out, $rng, $name, $len, $xs);
-		seq_check::<$t>($out, $rng, $name, $len, $xs);
-		apply_check::<$t>($out, $name, $len, $xs);
-		peek_check::<$t>($out, $name, $len, $xs);
+	($mode:expr, $out:expr, $rng:expr, $t:ty, $name:expr, $len:expr, $xs:expr) => {{
+		match $mode {
+			"snapshot" => snapshot_check::<$t>($out, $name, $len, $xs),
+			"constant" => {
+				let sc = $xs.iter().fold(0.0f64, |a, x| a.max((*x as f64).abs()));
+				constant_check::<$t>($out, $rng, $name, $len, $xs, false, sc)
+			}
+			_ => {
+				api_check::<$t>($out, $rng, $name, $len, $xs);
+				seq_check::<$t>($out, $rng, $name, $len, $xs);
+				apply_check::<$t>($out, $name, $len, $xs);
+				peek_check::<$t>($out, $name, $len, $xs);
+			}
+		}
 	}};
 }
 
-pub fn suite(out: &mut Out, seed: u64, thorough: bool) {
+/// the non-MA methods: routes, or snapshot / constant depending on the mode
+macro_rules! other {
+	($mode:expr, $out:expr, $rng:expr, $t:ty, $name:expr, $par:expr, $xs:expr, $exact:expr, $scale:expr, seq) => {{
+		match $mode {
+			"snapshot" => snapshot_check::<$t>($out, $name, $par, $xs),
+			"constant" => constant_check::<$t>($out, $rng, $name, $par, $xs, $exact, $scale),
+			_ => {
+				api_check::<$t>($out, $rng, $name, $par, $xs);
+				seq_check::<$t>($out, $rng, $name, $par, $xs);
+			}
+		}
+	}};
+	($mode:expr, $out:expr, $rng:expr, $t:ty, $name:expr, $par:expr, $xs:expr, $exact:expr, $scale:expr, noseq) => {{
+		match $mode {
+			"snapshot" => snapshot_check::<$t>($out, $name, $par, $xs),
+			"constant" => constant_check::<$t>($out, $rng, $name, $par, $xs, $exact, $scale),
+			_ => api_check::<$t>($out, $rng, $name, $par, $xs),
+		}
+	}};
+}
+
+pub fn suite(out: &mut Out, seed: u64, thorough: bool, mode: &str) {
 	let mut rng = Rng::new(seed);
 	let max = PeriodType::MAX as u64;
 	let lens: Vec<u64> = if thorough { vec![1, 2, 3, 4, 5, 7, 8, 13, 16, 31, 64, 127, 128, 200, 253, 254] } else { vec![1, 2, 3, 5, 14, 31, 254] };
@@ -287,77 +429,83 @@ pub fn suite(out: &mut Out, seed: u64, thorough: bool) {
 			let mut r = rng.fork(id);
 			let class = gen::CLASSES[(id as usize + rep) % gen::CLASSES.len()];
 			let xs: Vec<V> = gen::stream(&mut r, 60 + 2 * l as usize, class).into_iter().map(|x| x as V).collect();
-			out.line(&format!("C {} flags api len={} class={}", id, l, class));
+			out.line(&format!("C {} flags api_{} len={} class={}", id, mode, l, class));
 			if id == 0 {
 				out.sample(format!("api routes for every method, len={} class={} n={}", l, class, xs.len()));
 			}
 			let o = &mut *out;
-			scalar_ma!(o, &mut r, SMA, "sma", len, &xs);
-			scalar_ma!(o, &mut r, WMA, "wma", len, &xs);
-			scalar_ma!(o, &mut r, EMA, "ema", len, &xs);
-			scalar_ma!(o, &mut r, DMA, "dma", len, &xs);
-			scalar_ma!(o, &mut r, TMA, "tma", len, &xs);
-			scalar_ma!(o, &mut r, DEMA, "dema", len, &xs);
-			scalar_ma!(o, &mut r, TEMA, "tema", len, &xs);
-			scalar_ma!(o, &mut r, RMA, "rma", len, &xs);
-			scalar_ma!(o, &mut r, WSMA, "wsma", len, &xs);
-			scalar_ma!(o, &mut r, SWMA, "swma", len, &xs);
-			scalar_ma!(o, &mut r, TRIMA, "trima", len, &xs);
-			scalar_ma!(o, &mut r, HMA, "hma", len, &xs);
-			scalar_ma!(o, &mut r, LinReg, "linreg", len, &xs);
-			scalar_ma!(o, &mut r, Vidya, "vidya", len, &xs);
-			scalar_ma!(o, &mut r, SMM, "smm", len, &xs);
-			scalar_ma!(o, &mut r, Integral, "integral", len, &xs);
-			scalar_ma!(o, &mut r, StDev, "stdev", len, &xs);
-			scalar_ma!(o, &mut r, MeanAbsDev, "mad", len, &xs);
-			scalar_ma!(o, &mut r, MedianAbsDev, "medad", len, &xs);
-			scalar_ma!(o, &mut r, LinearVolatility, "linvol", len, &xs);
-			scalar_ma!(o, &mut r, Highest, "highest", len, &xs);
-			scalar_ma!(o, &mut r, Lowest, "lowest", len, &xs);
-			scalar_ma!(o, &mut r, HighestLowestDelta, "hldelta", len, &xs);
-			scalar_ma!(o, &mut r, Past<V>, "past", len, &xs);
-			api_check::<Derivative>(o, &mut r, "derivative", len, &xs);
-			seq_check::<Derivative>(o, &mut r, "derivative", len, &xs);
-			apply_check::<Derivative>(o, "derivative", len, &xs);
-			api_check::<Momentum>(o, &mut r, "momentum", len, &xs);
-			seq_check::<Momentum>(o, &mut r, "momentum", len, &xs);
-			apply_check::<Momentum>(o, "momentum", len, &xs);
-			api_check::<RateOfChange>(o, &mut r, "roc", len, &xs);
-			seq_check::<RateOfChange>(o, &mut r, "roc", len, &xs);
-			api_check::<CCI>(o, &mut r, "cci", len, &xs);
-			seq_check::<CCI>(o, &mut r, "cci", len, &xs);
-			api_check::<HighestIndex>(o, &mut r, "hindex", len, &xs);
-			seq_check::<HighestIndex>(o, &mut r, "hindex", len, &xs);
-			peek_check::<HighestIndex>(o, "hindex", len, &xs);
-			api_check::<LowestIndex>(o, &mut r, "lindex", len, &xs);
-			seq_check::<LowestIndex>(o, &mut r, "lindex", len, &xs);
-			peek_check::<LowestIndex>(o, "lindex", len, &xs);
+			scalar_ma!(mode, o, &mut r, SMA, "sma", len, &xs);
+			scalar_ma!(mode, o, &mut r, WMA, "wma", len, &xs);
+			scalar_ma!(mode, o, &mut r, EMA, "ema", len, &xs);
+			scalar_ma!(mode, o, &mut r, DMA, "dma", len, &xs);
+			scalar_ma!(mode, o, &mut r, TMA, "tma", len, &xs);
+			scalar_ma!(mode, o, &mut r, DEMA, "dema", len, &xs);
+			scalar_ma!(mode, o, &mut r, TEMA, "tema", len, &xs);
+			scalar_ma!(mode, o, &mut r, RMA, "rma", len, &xs);
+			scalar_ma!(mode, o, &mut r, WSMA, "wsma", len, &xs);
+			scalar_ma!(mode, o, &mut r, SWMA, "swma", len, &xs);
+			scalar_ma!(mode, o, &mut r, TRIMA, "trima", len, &xs);
+			scalar_ma!(mode, o, &mut r, HMA, "hma", len, &xs);
+			scalar_ma!(mode, o, &mut r, LinReg, "linreg", len, &xs);
+			scalar_ma!(mode, o, &mut r, Vidya, "vidya", len, &xs);
+			scalar_ma!(mode, o, &mut r, SMM, "smm", len, &xs);
+			scalar_ma!(mode, o, &mut r, Integral, "integral", len, &xs);
+			scalar_ma!(mode, o, &mut r, StDev, "stdev", len, &xs);
+			scalar_ma!(mode, o, &mut r, MeanAbsDev, "mad", len, &xs);
+			scalar_ma!(mode, o, &mut r, MedianAbsDev, "medad", len, &xs);
+			scalar_ma!(mode, o, &mut r, LinearVolatility, "linvol", len, &xs);
+			scalar_ma!(mode, o, &mut r, Highest, "highest", len, &xs);
+			scalar_ma!(mode, o, &mut r, Lowest, "lowest", len, &xs);
+			scalar_ma!(mode, o, &mut r, HighestLowestDelta, "hldelta", len, &xs);
+			scalar_ma!(mode, o, &mut r, Past<V>, "past", len, &xs);
+			let sc = xs.iter().fold(0.0f64, |a, x| a.max((*x as f64).abs()));
+			if mode == "snapshot" {
+				// windowless (cumulative) variants hold an empty window
+				snapshot_check::<Integral>(o, "integral0", 0 as PeriodType, &xs);
+			}
+			other!(mode, o, &mut r, Derivative, "derivative", len, &xs, false, sc, seq);
+			other!(mode, o, &mut r, Momentum, "momentum", len, &xs, false, sc, seq);
+			other!(mode, o, &mut r, RateOfChange, "roc", len, &xs, false, 1.0, seq);
+			other!(mode, o, &mut r, CCI, "cci", len, &xs, false, 1.0, seq);
+			other!(mode, o, &mut r, HighestIndex, "hindex", len, &xs, true, sc, seq);
+			other!(mode, o, &mut r, LowestIndex, "lindex", len, &xs, true, sc, seq);
+			if mode == "routes" {
+				apply_check::<Derivative>(o, "derivative", len, &xs);
+				apply_check::<Momentum>(o, "momentum", len, &xs);
+				peek_check::<HighestIndex>(o, "hindex", len, &xs);
+				peek_check::<LowestIndex>(o, "lindex", len, &xs);
+			}
 			let l2 = (l % 7 + 1) as PeriodType;
-			api_check::<TSI>(o, &mut r, "tsi", (l2, len), &xs);
-			seq_check::<TSI>(o, &mut r, "tsi", (l2, len), &xs);
-			peek_check::<TSI>(o, "tsi", (l2, len), &xs);
+			other!(mode, o, &mut r, TSI, "tsi", (l2, len), &xs, false, 1.0, seq);
+			if mode == "routes" {
+				peek_check::<TSI>(o, "tsi", (l2, len), &xs);
+			}
 			if (l as u64) * 2 + 2 < max {
-				api_check::<UpperReversalSignal>(o, &mut r, "upper_rev", (len, l2), &xs);
-				api_check::<LowerReversalSignal>(o, &mut r, "lower_rev", (l2, len), &xs);
-				api_check::<ReversalSignal>(o, &mut r, "reversal", (len, len), &xs);
+				other!(mode, o, &mut r, UpperReversalSignal, "upper_rev", (len, l2), &xs, true, sc, noseq);
+				other!(mode, o, &mut r, LowerReversalSignal, "lower_rev", (l2, len), &xs, true, sc, noseq);
+				other!(mode, o, &mut r, ReversalSignal, "reversal", (len, len), &xs, true, sc, noseq);
 			}
 			let w: Vec<V> = (0..l.min(40)).map(|i| (1 + (i * 7) % 5) as V).collect();
-			api_check::<Conv>(o, &mut r, "conv", w.clone(), &xs);
-			seq_check::<Conv>(o, &mut r, "conv", w.clone(), &xs);
-			peek_check::<Conv>(o, "conv", w, &xs);
+			other!(mode, o, &mut r, Conv, "conv", w.clone(), &xs, false, sc, seq);
+			if mode == "routes" {
+				peek_check::<Conv>(o, "conv", w, &xs);
+			}
 			// pairs
 			let ps: Vec<(V, V)> = xs.iter().enumerate().map(|(i, x)| (*x, xs[(i * 7 + 3) % xs.len()].abs() + 1.0)).collect();
-			api_check::<VWMA>(o, &mut r, "vwma", len, &ps);
-			peek_check::<VWMA>(o, "vwma", len, &ps);
-			api_check::<Cross>(o, &mut r, "cross", (), &ps);
-			api_check::<CrossAbove>(o, &mut r, "cross_above", (), &ps);
-			api_check::<CrossUnder>(o, &mut r, "cross_under", (), &ps);
+			other!(mode, o, &mut r, VWMA, "vwma", len, &ps, false, sc, noseq);
+			if mode == "routes" {
+				peek_check::<VWMA>(o, "vwma", len, &ps);
+			}
+			other!(mode, o, &mut r, Cross, "cross", (), &ps, true, sc, noseq);
+			other!(mode, o, &mut r, CrossAbove, "cross_above", (), &ps, true, sc, noseq);
+			other!(mode, o, &mut r, CrossUnder, "cross_under", (), &ps, true, sc, noseq);
 			// candles (sized input)
 			let cs: Vec<Candle> = gen::candles(&mut r, 60 + l as usize, gen::CANDLE_CLASSES[(id as usize) % gen::CANDLE_CLASSES.len()]);
-			api_check::<CollapseTimeframe<Candle>>(o, &mut r, "collapse", (l as usize % 9) + 1, &cs);
-			seq_check::<CollapseTimeframe<Candle>>(o, &mut r, "collapse", (l as usize % 9) + 1, &cs);
-			seq_check::<Past<Candle>>(o, &mut r, "past_candle", len, &cs);
-			api_check::<Past<Candle>>(o, &mut r, "past_candle", len, &cs);
+			if mode != "constant" {
+				// CollapseTimeframe counts its inputs: exempt from the constant-prehistory property
+				other!(mode, o, &mut r, CollapseTimeframe<Candle>, "collapse", (l as usize % 9) + 1, &cs, true, sc, seq);
+			}
+			other!(mode, o, &mut r, Past<Candle>, "past_candle", len, &cs, true, sc, seq);
 			out.line("E");
 			id += 1;
 		}
